@@ -105,7 +105,8 @@ namespace Givaro {
             if (snum == 0)
                 throw GivMathDivZero("*** Error: division by zero, in operator Rational::inv in givrational.h") ;
 #endif
-            r.num=a.den; r.den=a.num;
+            r = a; // r may be a: copy, then exchange numerator and denominator
+            std::swap(r.num,r.den);
             if (snum < 0) {
                 Integer::negin(r.num);
                 Integer::negin(r.den);
